@@ -200,11 +200,9 @@ theorem propagate_linked {ps : Pairs} {seg : Nat → Nat → V6} {P : Nat → V6
 def LinkedA (ps : Pairs) (att : List Att) (a b : Nat) : Prop :=
   Linked ps a b ∨ (∃ t ∈ att, t.x = a ∧ t.link = b) ∨ (∃ t ∈ att, t.x = b ∧ t.link = a)
 
-/-- every attached frame comes from a propagator for the two ends of a segment, and the position given to its
-centre is the one its orbit has relative to the centre it hangs below (for an orbit that is still expressed in the
-frame of its propagator, `link = cen`, this says: the new centre is the body of the orbit) -/
-def AttOK (ps : Pairs) (att : List Att) (P : Nat → V6) : Prop :=
-  ∀ t ∈ att, Linked ps t.obj t.cen ∧ P t.x - P t.link = P t.obj - P t.cen
+/-- the position given to the centre of a frame made from an orbit is the position of the orbit's body (a convention
+for the names of the new centres, not a restriction: see `C18.attach_potential`) -/
+def AttPos (att : List Att) (P : Nat → V6) : Prop := ∀ t ∈ att, P t.x = P t.obj
 
 theorem attFind_some {att : List Att} {u v : Nat} {t : Att} (h : attFind att u v = some t) :
     t ∈ att ∧ t.x = u ∧ t.link = v := by
@@ -222,62 +220,37 @@ theorem attFind_none {att : List Att} {u v : Nat} (h : attFind att u v = none) :
   have := h t ht
   simp [h1, h2] at this
 
-/-- one step of `Center.convert_to`, attached centres included, adds the position of `a` relative to `b` -/
-theorem stepOffsetA_eq {ps : Pairs} {att : List Att} {seg : Nat → Nat → V6} {P : Nat → V6}
-    (hP : Consistent ps seg P) (hu : UniqueCenter ps) (hA : AttOK ps att P) {a b : Nat}
-    (h : LinkedA ps att a b) : stepOffsetA ps att seg a b = .ok (si (P a - P b)) := by
-  unfold stepOffsetA
-  by_cases h1 : (b, a) ∈ ps
-  · rw [if_pos (contains_iff.mpr h1)]; exact provide_eq hP hu h1
-  · have h1' : ¬ (ps.contains (b, a) = true) := fun hh => h1 (contains_iff.mp hh)
-    rw [if_neg h1']
-    cases hf : attFind att a b with
-    | some t =>
-      obtain ⟨ht, hx, hl⟩ := attFind_some hf
-      simp only
-      rw [propagate_linked hP (hA t ht).1, ← (hA t ht).2, hx, hl]
-    | none =>
-      simp only
-      by_cases h2 : (a, b) ∈ ps
-      · rw [if_pos (contains_iff.mpr h2), provide_eq hP hu h2]
-        simp only [negRes, vneg_eq, ← si_neg]; congr 2; abel
-      · have h2' : ¬ (ps.contains (a, b) = true) := fun hh => h2 (contains_iff.mp hh)
-        rw [if_neg h2']
-        cases hg : attFind att b a with
-        | some t =>
-          obtain ⟨ht, hx, hl⟩ := attFind_some hg
-          simp only
-          rw [propagate_linked hP (hA t ht).1, ← (hA t ht).2, hx, hl]
-          simp only [negRes, vneg_eq, ← si_neg]; congr 2; abel
-        | none =>
-          exfalso
-          rcases h with h | h | h
-          · rcases h with h | h
-            · exact h1 h
-            · exact h2 h
-          · exact attFind_none hf h
-          · exact attFind_none hg h
+/-- a step function is right wherever it answers -/
+def StepOK (ps : Pairs) (att : List Att) (P : Nat → V6) (stepf : Nat → Nat → Res) : Prop :=
+  ∀ a b v, LinkedA ps att a b → stepf a b = .ok v → v = si (P a - P b)
 
-theorem sumStepsA_eq {ps : Pairs} {att : List Att} {seg : Nat → Nat → V6} {P : Nat → V6}
-    (hP : Consistent ps seg P) (hu : UniqueCenter ps) (hA : AttOK ps att P) :
-    ∀ (rest : List Nat) (x : Nat) (acc : V6), (x :: rest).IsChain (LinkedA ps att) →
-      sumStepsA ps att seg acc (x :: rest) = .ok (acc + si (P x - P ((x :: rest).getLast (by simp)))) := by
+theorem sumWith_ok {ps : Pairs} {att : List Att} {P : Nat → V6} {stepf : Nat → Nat → Res}
+    (hs : StepOK ps att P stepf) :
+    ∀ (rest : List Nat) (x : Nat) (acc v : V6), (x :: rest).IsChain (LinkedA ps att) →
+      sumWith stepf acc (x :: rest) = .ok v → v = acc + si (P x - P ((x :: rest).getLast (by simp))) := by
   intro rest
   induction rest with
-  | nil => intro x acc _; simp [sumStepsA, si_zero]
+  | nil => intro x acc v _ h; simp only [sumWith] at h; cases h; simp [si_zero]
   | cons y r ih =>
-    intro x acc hc
+    intro x acc v hc h
     have hxy : LinkedA ps att x y := by
       cases hc with | cons_cons h _ => exact h
     have hr : (y :: r).IsChain (LinkedA ps att) := by
       cases hc with | cons_cons _ h => exact h
-    unfold sumStepsA
-    rw [stepOffsetA_eq hP hu hA hxy]
-    simp only
-    rw [ih y _ hr, vadd_eq]
-    congr 1
-    rw [List.getLast_cons (by simp : y :: r ≠ []), add_assoc, ← si_add]
-    congr 2; abel
+    unfold sumWith at h
+    cases hst : stepf x y with
+    | ok o =>
+      rw [hst] at h
+      simp only at h
+      rw [ih y _ _ hr h, hs x y o hxy hst, vadd_eq]
+      rw [List.getLast_cons (by simp : y :: r ≠ []), add_assoc, ← si_add]
+      congr 2; abel
+    | unknownBody => rw [hst] at h; cases h
+    | unknownFrame => rw [hst] at h; cases h
+    | noRoute => rw [hst] at h; cases h
+    | keyError => rw [hst] at h; cases h
+    | noProvider => rw [hst] at h; cases h
+    | fuel => rw [hst] at h; cases h
 
 theorem linked_linkHistA (ps : Pairs) (att : List Att) (u v : Nat) :
     C20.linked (linkHistA ps att) u v ↔ LinkedA ps att u v := by
@@ -298,12 +271,12 @@ theorem linked_linkHistA (ps : Pairs) (att : List Att) (u v : Nat) :
     · exact Or.inl (Or.inr ⟨t, ht, h1, h2⟩)
     · exact Or.inr (Or.inr ⟨t, ht, h1, h2⟩)
 
-/-- `Center.convert_to` with attached frames: whenever the routing returns a path, the result is the position of
-`a` relative to `b` -/
-theorem centerToA_ok {ps : Pairs} {att : List Att} {seg : Nat → Nat → V6} {P : Nat → V6}
-    (hP : Consistent ps seg P) (hu : UniqueCenter ps) (hA : AttOK ps att P) {fuel : Nat} {a b : Nat} {v : V6}
-    (h : centerToA fuel ps att seg a b = .ok v) : v = si (P a - P b) := by
-  unfold centerToA at h
+/-- `Center.convert_to` over kernel links and attached centres with a step function that is right wherever it
+answers: whenever a vector is returned it is the position of `a` relative to `b` -/
+theorem centerWith_ok {ps : Pairs} {att : List Att} {P : Nat → V6} {stepf : Nat → Nat → Res}
+    (hs : StepOK ps att P stepf) {fuel : Nat} {a b : Nat} {v : V6}
+    (h : centerWith fuel ps att stepf a b = .ok v) : v = si (P a - P b) := by
+  unfold centerWith at h
   cases hb : build fuel (linkHistA ps att) with
   | none => rw [hb] at h; cases h
   | some g =>
@@ -321,20 +294,123 @@ theorem centerToA_ok {ps : Pairs} {att : List Att} {seg : Nat → Nat → V6} {P
         subst hh
         have hc' : (x :: rest).IsChain (LinkedA ps att) :=
           List.IsChain.imp (fun u v h => (linked_linkHistA ps att u v).mp h) hc
-        rw [sumStepsA_eq hP hu hA rest x vzero hc', vzero_eq, zero_add] at h
+        have hv := sumWith_ok hs rest x vzero v hc' h
+        rw [vzero_eq, zero_add] at hv
         have : (x :: rest).getLast (by simp) = b := by
           have := List.getLast?_eq_some_getLast (l := x :: rest) (by simp)
           rw [hl] at this
           exact (Option.some.inj this).symm
-        rw [this] at h
-        exact (Res.ok.inj h).symm
+        rw [this] at hv
+        exact hv
     | unknown => rw [hp] at h; cases h
     | keyError => rw [hp] at h; cases h
     | loop => rw [hp] at h; cases h
 
+/-- the offset of an attached centre: the body of the orbit relative to the centre of the link — the propagated state is
+expressed in the frame of the link (commit 261fb0a) -/
+theorem attOffset_ok {ps : Pairs} {seg : Nat → Nat → V6} {P : Nat → V6} (hP : Consistent ps seg P)
+    {convert : Nat → Nat → Res} (hconv : ∀ a b v, convert a b = .ok v → v = si (P a - P b)) {t : Att} {v : V6}
+    (h : attOffset ps seg convert t = .ok v) : v = si (P t.obj - P t.link) := by
+  unfold attOffset at h
+  cases hp : propagate ps seg t.obj t.cen with
+  | ok u =>
+    rw [hp] at h
+    simp only at h
+    have hu : u = si (P t.obj - P t.cen) := by
+      have := propagate_linked hP (propagate_ok_linked hp)
+      rw [this] at hp
+      exact (Res.ok.inj hp).symm
+    by_cases hcl : t.cen = t.link
+    · rw [if_pos hcl] at h
+      rw [← Res.ok.inj h, hu, hcl]
+    · rw [if_neg hcl] at h
+      cases hc : convert t.cen t.link with
+      | ok off =>
+        rw [hc] at h
+        simp only at h
+        rw [← Res.ok.inj h, hu, hconv _ _ _ hc, vadd_eq, ← si_add]
+        congr 1; abel
+      | unknownBody => rw [hc] at h; cases h
+      | unknownFrame => rw [hc] at h; cases h
+      | noRoute => rw [hc] at h; cases h
+      | keyError => rw [hc] at h; cases h
+      | noProvider => rw [hc] at h; cases h
+      | fuel => rw [hc] at h; cases h
+  | unknownBody => rw [hp] at h; cases h
+  | unknownFrame => rw [hp] at h; cases h
+  | noRoute => rw [hp] at h; cases h
+  | keyError => rw [hp] at h; cases h
+  | noProvider => rw [hp] at h; cases h
+  | fuel => rw [hp] at h; cases h
+
+theorem negRes_ok {r : Res} {v : V6} (h : negRes r = .ok v) : ∃ u, r = .ok u ∧ v = -u := by
+  cases r with
+  | ok u => exact ⟨u, rfl, by simp only [negRes, vneg_eq] at h; exact (Res.ok.inj h).symm⟩
+  | unknownBody => cases h
+  | unknownFrame => cases h
+  | noRoute => cases h
+  | keyError => cases h
+  | noProvider => cases h
+  | fuel => cases h
+
+/-- one step of `Center.convert_to`, attached centres included and to any nesting depth: wherever it answers, it adds
+the position of `a` relative to `b` -/
+theorem stepOffsetD_ok {ps : Pairs} {att : List Att} {seg : Nat → Nat → V6} {P : Nat → V6}
+    (hP : Consistent ps seg P) (hu : UniqueCenter ps) (hA : AttPos att P) (fuel : Nat) :
+    ∀ d, StepOK ps att P (stepOffsetD fuel ps att seg d) := by
+  intro d
+  induction d with
+  | zero => intro a b v _ h; simp [stepOffsetD] at h
+  | succ d ih =>
+    intro a b v hl h
+    have hconv : ∀ a b v, centerWith fuel ps att (stepOffsetD fuel ps att seg d) a b = .ok v → v = si (P a - P b) :=
+      fun a b v h => centerWith_ok ih h
+    unfold stepOffsetD at h
+    by_cases h1 : (b, a) ∈ ps
+    · rw [if_pos (contains_iff.mpr h1), provide_eq hP hu h1] at h
+      exact (Res.ok.inj h).symm
+    · have h1' : ¬ (ps.contains (b, a) = true) := fun hh => h1 (contains_iff.mp hh)
+      rw [if_neg h1'] at h
+      cases hf : attFind att a b with
+      | some t =>
+        obtain ⟨ht, hx, hlk⟩ := attFind_some hf
+        rw [hf] at h
+        simp only at h
+        rw [attOffset_ok hP hconv h, ← hA t ht, hx, hlk]
+      | none =>
+        rw [hf] at h
+        simp only at h
+        by_cases h2 : (a, b) ∈ ps
+        · rw [if_pos (contains_iff.mpr h2), provide_eq hP hu h2] at h
+          simp only [negRes, vneg_eq] at h
+          rw [← Res.ok.inj h, ← si_neg]; congr 1; abel
+        · have h2' : ¬ (ps.contains (a, b) = true) := fun hh => h2 (contains_iff.mp hh)
+          rw [if_neg h2'] at h
+          cases hg : attFind att b a with
+          | some t =>
+            obtain ⟨ht, hx, hlk⟩ := attFind_some hg
+            rw [hg] at h
+            simp only at h
+            obtain ⟨u, hu', hv⟩ := negRes_ok h
+            rw [hv, attOffset_ok hP hconv hu', ← hA t ht, hx, hlk, ← si_neg]; congr 1; abel
+          | none =>
+            exfalso
+            rcases hl with hl | hl | hl
+            · rcases hl with hl | hl
+              · exact h1 hl
+              · exact h2 hl
+            · exact attFind_none hf hl
+            · exact attFind_none hg hl
+
+/-- `Center.convert_to` with attached frames: whenever a vector is returned it is the position of `a` relative to `b` -/
+theorem centerToA_ok {ps : Pairs} {att : List Att} {seg : Nat → Nat → V6} {P : Nat → V6}
+    (hP : Consistent ps seg P) (hu : UniqueCenter ps) (hA : AttPos att P) {fuel : Nat} {a b : Nat} {v : V6}
+    (h : centerToA fuel ps att seg a b = .ok v) : v = si (P a - P b) :=
+  centerWith_ok (stepOffsetD_ok hP hu hA fuel _) h
+
 /-- `Frame.transform` between any two frames, kernel bodies or attached ones -/
 theorem reframeA_ok {ps : Pairs} {att : List Att} {seg : Nat → Nat → V6} {P : Nat → V6}
-    (hP : Consistent ps seg P) (hu : UniqueCenter ps) (hA : AttOK ps att P) {fuel : Nat} {a b : Nat} {x v : V6}
+    (hP : Consistent ps seg P) (hu : UniqueCenter ps) (hA : AttPos att P) {fuel : Nat} {a b : Nat} {x v : V6}
     (h : reframeA fuel ps att seg a b x = .ok v) : v = x + si (P a - P b) := by
   unfold reframeA at h
   split at h
